@@ -1216,7 +1216,12 @@ class BareServer():
                     logger.debug("Headers/Body:\n%s\n%s\n",
                                 steward.requestant.headers,
                                 steward.requestant.body)
-                    steward.respond()
+                    try:
+                        steward.respond()
+                    except ValueError as ex:  # request url can not be split
+                        sys.stderr.write(str(ex))
+                        self.closeConnection(ca)
+                        continue
 
             if steward.waited:
                 steward.pour()
